@@ -425,6 +425,8 @@ fn run_case(c: &Value) -> (Vec<Value>, Value) {
                         0 => run_exec::<0>(&case, l2).await,
                         32 => run_exec::<32>(&case, l2).await,
                         103 => run_exec::<103>(&case, l2).await,
+                        11 => run_exec::<11>(&case, l2).await,      // ExpensiveMetricsWithoutLogs
+                        107 => run_exec::<107>(&case, l2).await,    // LogsWithExpensiveMetrics
                         _ => run_exec::<7>(&case, l2).await,
                     }
                 }
